@@ -46,9 +46,10 @@ def parse_f90(text):
                 procs[pname.lower()] = "F" if all(byval) else "G"
         body_noabs = re.sub(r"abstract\s+interface.*?end\s+interface", "", body, flags=re.I | re.S)
         args = []
+        intents = []
         for a in [x.strip() for x in arglist.split(",") if x.strip()]:
             if a.lower() in procs:
-                args.append((a, procs[a.lower()], "procedure"))
+                args.append((a, procs[a.lower()], "procedure")); intents.append("")
                 continue
             dm = re.search(r"^\s*(character\s*\(\s*c_char\s*\)|real\s*\(\s*c_double\s*\)|integer\s*\(\s*c_int\s*\))([^:\n]*)::\s*([^\n]*)$", body_noabs, re.I | re.M)
             found = None
@@ -58,7 +59,7 @@ def parse_f90(text):
                     found = dm
                     break
             if not found:
-                args.append((a, "?", "undeclared"))
+                args.append((a, "?", "undeclared")); intents.append("")
                 continue
             ftype, attrs, decl = found.group(1).lower().replace(" ", ""), found.group(2).lower(), found.group(3)
             is_array = "dimension" in attrs or re.search(r"\b%s\s*\(" % re.escape(a), decl, re.I) is not None
@@ -70,7 +71,8 @@ def parse_f90(text):
             else:
                 cls = "i" if byvalue else "pI"
             args.append((a, cls, ftype))
-        out.append({"fname": fname, "sym": sym, "result": result, "args": args})
+            intents.append("in" if re.search(r"intent\s*\(\s*in\s*\)", attrs) else ("out" if re.search(r"intent\s*\(\s*(out|inout)\s*\)", attrs) else ""))
+        out.append({"fname": fname, "sym": sym, "result": result, "args": args, "intents": intents})
     return out
 
 
@@ -89,6 +91,10 @@ template <> struct Cls<void> { static std::string s() { return "v"; } };
 template <> struct Cls<int> { static std::string s() { return "i"; } };
 template <> struct Cls<double> { static std::string s() { return "d"; } };
 template <class T> struct Cls<T*> { static std::string s() { return "p"; } };
+template <class T> struct Wr { static std::string s() { return "-"; } };
+template <class T> struct Wr<T*> { static std::string s() { return "w"; } };        // the callee may write through it
+template <class T> struct Wr<const T*> { static std::string s() { return "r"; } };  // read only
+template <class R, class... A> std::string wsig(R (*)(A...)) { std::string r; int d[] = {0, (r += Wr<A>::s(), 0)...}; (void)d; return r; }
 template <> struct Cls<double (*)(double)> { static std::string s() { return "F"; } };
 template <> struct Cls<double (*)(double*)> { static std::string s() { return "G"; } };
 template <> struct Cls<double (*)(const double*)> { static std::string s() { return "G"; } };
@@ -225,6 +231,7 @@ def gen_fshims(ifaces, f90_text):
         via_wrapper = it["fname"].lower().endswith("_passthrough") and it["sym"].lower() in wrappers
         callee = it["sym"] if via_wrapper else it["fname"]
         call, nd, ni, ns, ok = [], 0, 0, 0, True
+        strided = False
         for (name, cls, ftype) in it["args"]:
             if cls == "d":
                 nd += 1; call.append("d(%d)" % nd)
@@ -233,7 +240,7 @@ def gen_fshims(ifaces, f90_text):
             elif cls == "pc":
                 ns += 1; call.append("fstr(sv(%d))" % ns if via_wrapper else "fstr(sv(%d))//C_NULL_CHAR" % ns)
             elif cls == "pD":
-                call.append("arr(1:256)")
+                call.append("tab(2, :)"); strided = True
             elif cls == "pI":
                 call.append("n")
             elif cls == "pR":
@@ -248,11 +255,18 @@ def gen_fshims(ifaces, f90_text):
             continue
         L = ["function fshim_%d(d, iv, sv, arr, n) bind(C, name='shim_%d') result(r)" % (k, k), "  use iso_c_binding", "  use masa", "  use c18_help", "  implicit none",
              "  real(c_double) :: d(*)", "  integer(c_int) :: iv(*)", "  type(c_ptr) :: sv(*)", "  real(c_double) :: arr(*)", "  integer(c_int) :: n", "  real(c_double) :: r", "  r = 0"]
+        if strided:
+            # the array travels as row 2 of a 2-d table: a non-contiguous actual argument (what `call masa_get_array(name, n, table(2,:))` is)
+            L.insert(-1, "  real(c_double) :: tab(3, 256)")
+            L.append("  tab(1, :) = -555.0d0"); L.append("  tab(3, :) = -555.0d0"); L.append("  tab(2, :) = arr(1:256)")
         expr = "%s(%s)" % (callee, ", &\n      ".join(call))
         if it["result"] == "void":
             L.append("  call " + expr)
         else:
             L.append("  r = real(" + expr + ", c_double)")
+        if strided:
+            L.append("  arr(1:256) = tab(2, :)")
+            L.append("  if (any(tab(1, :) /= -555.0d0) .or. any(tab(3, :) /= -555.0d0)) arr(1) = -999.0d0")
         L.append("end function fshim_%d" % k)
         F.append("\n".join(L) + "\n")
         table.append((k, it, callee))
@@ -325,7 +339,7 @@ def check(tier):
     if len(ifaces) != n_bind:
         rep.violation("masa.f90 has %d bind(C,name=) lines but only %d could be parsed as interfaces" % (n_bind, len(ifaces)), {"engine": "c18", "kind": "parse"})
     # ---- layer 1a: compiler-derived ABI strings of every C definition
-    body = "\n".join('  printf("%s %%s\\n", sig(&::%s).c_str());' % (s, s) for s in defined)
+    body = "\n".join('  printf("%s %%s %%s\\n", sig(&::%s).c_str(), ("W" + wsig(&::%s)).c_str());' % (s, s, s) for s in defined)
     tu = os.path.join(b.dir, "c18_sig.cpp")
     open(tu, "w").write(SIG_TU % body)
     objs = [os.path.join(b.dir, s[:-4] + ".o") for s in vbuild.cc_sources() if s != "cmasa.cpp"]
@@ -334,7 +348,11 @@ def check(tier):
     if r.returncode != 0:
         sys.stderr.write("c18_sig build failed:\n" + r.stdout[-3000:]); raise SystemExit(2)
     r = vbuild.run([exe])
-    csig = dict(l.split() for l in r.stdout.strip().split("\n") if l.strip())
+    csig, cwr = {}, {}
+    for l in r.stdout.strip().split("\n"):
+        f = l.split()
+        if len(f) >= 2:
+            csig[f[0]] = f[1]; cwr[f[0]] = f[2][1:] if len(f) > 2 else ""
     # ---- layer 1b: exported symbols of the freshly built library
     nm = vbuild.run(["nm", "-g", "--defined-only", b.lib]).stdout
     exported = set(re.findall(r"\bT\s+(masa_\w+)$", nm, re.M))
@@ -356,6 +374,12 @@ def check(tier):
         if any(a[1] == "?" for a in it["args"]):
             rep.violation("Fortran interface %s: dummy argument without a declaration" % it["fname"], {"engine": "c18", "kind": "undeclared", "interface": it["fname"]})
             continue
+        # a dummy the C function writes through (non-const pointer) must not be declared intent(in): the Fortran processor may then pass a
+        # read-only copy and skip the copy-back
+        wr = cwr.get(sym, "")
+        for k, (nm_, cls_, _) in enumerate(it["args"]):
+            if k < len(wr) and wr[k] == "w" and cls_ in ("pD", "pI", "pR") and it.get("intents", [""] * 99)[k] == "in":
+                rep.violation("Fortran interface %s -> %s: dummy %s is intent(in) but the C function writes through the corresponding pointer" % (it["fname"], sym, nm_), {"engine": "c18", "kind": "intent", "symbol": sym, "dummy": nm_})
         if fsig == c:
             continue
         fr, fa = fsig[0], fsig[2:-1]
